@@ -130,6 +130,7 @@ def dba_loop(s, c=None, max_it=10, thr=0.001, mask=None,
     if not use_c and nb_prob_samples != 0:
         raise Exception('The parameter nb_prob_samples is not available in the Python implementation!')
 
+    avg = c  # the result if no step is requested (max_it=0)
     for it in range(max_it):
         logger.debug('DBA Iteration {}'.format(it))
         if use_c:
